@@ -93,8 +93,12 @@ def scenario(sid, present, crit, event, outcome, verdict, early=False, lose=None
                       {"do": "control", "env": "e1", "op": OPS[event]},
                       {"do": "ungate", "point": "task.state.update"}]
         elif lose:
-            steps += [{"do": "control", "env": "e1", "op": OPS[event], "timeout_ms": 115000 if slow else 0, "caller": "T"},
-                      {"do": "sleep", "ms": 300},
+            # (the loss is injected once the command has reached the task - waiting for that, not for a time to pass: a loss
+            #  that overtakes the command is another case, see the dead-critical family)
+            steps += [{"do": "c03track"},
+                      {"do": "control", "env": "e1", "op": OPS[event], "timeout_ms": 115000 if slow else 0, "caller": "T"},
+                      {"do": "waitcmd", "class": "c02s%d%s" % (sid, lose[1]), "op": event, "timeout_ms": 20000},
+                      {"do": "sleep", "ms": 50},
                       {"do": "fault", "kind": lose[0], "class": "c02s%d%s" % (sid, lose[1])},
                       {"do": "await", "caller": "T", "timeout_ms": 118000 if slow else 0}]
         else:
@@ -154,6 +158,10 @@ def run(ctx):
         for ev in ("CONFIGURE", "START", "STOP", "RESET"):
             sid += 1
             scenarios.append(scenario(sid, ["t1", "t2"], cr, ev, {"t1": "ok", "t2": "ok"}, "ok", dead=dd))
+    # a CRITICAL task that died a moment before the request (the environment's own reaction to its death waits 0.5 s)
+    for ev in ("START", "STOP", "RESET"):
+        sid += 1
+        scenarios.append(scenario(sid, ["t1", "t2"], {"t1": True, "t2": True}, ev, {"t1": "ok", "t2": "ok"}, "fail", dead=("t1",)))
     # timing variant: the acknowledgements overtake the return of the send call
     for ev in ("CONFIGURE", "START", "STOP", "RESET"):
         for out in ({"t1": "ok", "t2": "ok"}, {"t1": "err_src", "t2": "ok"}):
@@ -210,5 +218,6 @@ def judge(ctx, scenarios, lines):
         tasks = m.get("tasks", [])
         bad = [t for t in tasks if t["outcome"] != "ok"]
         sig = {"inv": inv, "scn": scn, "event": m.get("event"), "ntasks": len(tasks), "ndead": sum(1 for t in tasks if t.get("dead")),
+               "dead_critical": any(t.get("dead") and t["crit"] for t in tasks),
                "critical_failed": any(t["crit"] for t in bad), "noncritical_failed": any(not t["crit"] for t in bad)}
         ctx.add_violation(sig, replay_obj={"scenario": by_id.get(scn), "trace": [l for l in lines if l.get("scn") == scn]})
